@@ -827,7 +827,13 @@ func (x *Exec) storePath(cur Value, path []Sel, v Value) Value {
 	}
 	nv, ok := v.(*Term)
 	if !ok {
-		panic(unsupported(fmt.Sprintf("symbolic index store of %T", v)))
+		// not mergeable cell-wise: fork over the feasible index values instead
+		k := x.concretize(s.Idx, "index of a store into an array of non-integers")
+		if !k.IsInt64() || k.Int64() < 0 || int(k.Int64()) >= len(a.Elems) {
+			panic(pathEnd{"infeasible", "index out of range after obligation"})
+		}
+		a.Elems[k.Int64()] = v
+		return a
 	}
 	for i := range a.Elems {
 		a.Elems[i] = Ite(Eq(s.Idx, BVi(int64(i), s.Idx.W)), nv, a.Elems[i].(*Term))
@@ -1541,8 +1547,7 @@ func (x *Exec) indexVal(base Value, idx *Term, tb, ti types.Type) Value {
 		return x.selectElem(b.Elems, idx)
 	case string:
 		x.obligation(Ult(idx, BVi(int64(len(b)), 64)), "string index out of range")
-		k := x.concretize(idx, "string index")
-		return BVi(int64(b[k.Int64()]), 8)
+		return x.stringByteAt(b, idx)
 	}
 	panic(unsupported(fmt.Sprintf("Index on %T", base)))
 }
@@ -1711,8 +1716,7 @@ func (x *Exec) lookup(base, key Value, i *ssa.Lookup) Value {
 	case string:
 		idx := i64(key.(*Term), i.Index.Type())
 		x.obligation(Ult(idx, BVi(int64(len(b)), 64)), "string index out of range")
-		k := x.concretize(idx, "string index")
-		return BVi(int64(b[k.Int64()]), 8)
+		return x.stringByteAt(b, idx)
 	case MapV:
 		vt := i.X.Type().Underlying().(*types.Map).Elem()
 		val, ok := x.mapLookup(b, key, vt)
@@ -1856,9 +1860,16 @@ func (x *Exec) typeAssert(i *ssa.TypeAssert, v IfaceV) Value {
 	var res Value
 	if v.T != nil {
 		if _, isIface := i.AssertedType.Underlying().(*types.Interface); isIface {
-			ok = types.Implements(v.T, i.AssertedType.Underlying().(*types.Interface))
+			it := i.AssertedType.Underlying().(*types.Interface)
+			ok = types.Implements(v.T, it)
 			if strings.HasPrefix(namedPath(v.T), "*extern:") {
+				// opaque foreign values (io.EOF, fmt errors, crypto/rand.Reader) offer only Error / Read
 				ok = true
+				for m := 0; m < it.NumMethods(); m++ {
+					if n := it.Method(m).Name(); n != "Error" && n != "Read" {
+						ok = false
+					}
+				}
 			}
 			res = v
 		} else {
@@ -1963,8 +1974,11 @@ func (x *Exec) builtinCopy(dst SliceV, srcv Value) Value {
 		return n
 	}
 	// symbolic count / offsets: cell-wise ite
-	if len(da.Elems) > 256 || len(sa.Elems) > 256 {
-		panic(pathEnd{"bound", "symbolic copy over arrays larger than 256 cells"})
+	if d := Sub(src.Off, dst.Off); !d.IsConst() && (len(da.Elems) > 256 || len(sa.Elems) > 256) {
+		panic(pathEnd{"bound", "symbolic copy with unrelated offsets over arrays larger than 256 cells"})
+	}
+	if len(da.Elems) > 8192 {
+		panic(pathEnd{"bound", "symbolic copy into an array larger than 8192 cells"})
 	}
 	old := make([]*Term, len(sa.Elems))
 	for i, e := range sa.Elems {
@@ -2103,4 +2117,35 @@ func (x *Exec) strOrder(op token.Token, a, b Value) (*Term, bool) {
 		}
 	}
 	return nil, false
+}
+
+
+// stringByteAt: byte of a constant string at a (possibly symbolic) in-range index, as a piecewise table.
+func (x *Exec) stringByteAt(b string, idx *Term) *Term {
+	if idx.IsConst() {
+		return BVi(int64(b[idx.Int64()]), 8)
+	}
+	if len(b) > 4096 {
+		k := x.concretize(idx, "index into a long constant string")
+		return BVi(int64(b[k.Int64()]), 8)
+	}
+	// generic: chain over maximal runs, first run first
+	type run struct {
+		hi int
+		c  byte
+	}
+	var runs []run
+	for p := 0; p < len(b); {
+		q := p
+		for q+1 < len(b) && b[q+1] == b[p] {
+			q++
+		}
+		runs = append(runs, run{q, b[p]})
+		p = q + 1
+	}
+	v := BVi(int64(runs[len(runs)-1].c), 8)
+	for r := len(runs) - 2; r >= 0; r-- {
+		v = Ite(Ule(idx, BVi(int64(runs[r].hi), 64)), BVi(int64(runs[r].c), 8), v)
+	}
+	return v
 }
